@@ -272,21 +272,26 @@ Definition user_coerce (k : dkind) : input -> Z * Z :=
 
 Definition shape_eqb (a b : Z * Z) : bool := (fst a =? fst b) && (snd a =? snd b).
 
-(** invocations inside one call: (is the user's X, descriptor, returned shape if it returned) *)
-Definition invocation := (bool * input * option (Z * Z))%type.
+(** invocations inside one call: (is the user's X, descriptor, what was seen of it:
+    [None] nothing recorded, [Some None] it raised, [Some (Some shp)] it returned an array of shape shp) *)
+Definition invocation := (bool * input * option (option (Z * Z)))%type.
 
 Fixpoint run_invocations (k : dkind) (st : vstate) (invs : list invocation) : bool * vstate * bool :=
-  (* (call goes through, attributes afterwards, every returned shape is the model's) *)
+  (* (call goes through, attributes afterwards, every recorded return/raise is the model's) *)
   match invs with
   | [] => (true, st, true)
-  | (user, x, shp_obs) :: t =>
+  | (user, x, seen) :: t =>
       match k_validator k st x with
-      | Reject s => (false, s, match shp_obs with None => true | Some _ => false end)
+      | Reject s => (false, s, match seen with Some (Some _) => false | _ => true end)
       | Accept shp s =>
-          let shp_ok := match shp_obs with Some o => shape_eqb o shp | None => false end in
+          let seen_ok := match seen with
+                         | Some (Some o) => shape_eqb o shp
+                         | Some None => false
+                         | None => true
+                         end in
           if k_uni k && negb (snd shp =? 1)
-          then (false, st, shp_ok)                 (* the guard restores the prior attributes *)
-          else let '(ok, s', shapes_ok) := run_invocations k s t in (ok, s', shp_ok && shapes_ok)
+          then (false, st, seen_ok)                (* the guard restores the prior attributes *)
+          else let '(ok, s', rest_ok) := run_invocations k s t in (ok, s', seen_ok && rest_ok)
       end
   end.
 
@@ -294,7 +299,8 @@ Record call := mkCall {
   c_x : option input; c_yt : option input; c_yp : option input;
   c_invs : list invocation;
   c_accepted : bool;                     (* observed: returned normally *)
-  c_cols : option (list name); c_dim : option Z   (* observed attributes after the call *)
+  c_cols : option (list name); c_dim : option Z;  (* observed attributes after the call ... *)
+  c_attrs_known : bool                   (* ... when they could be read *)
 }.
 
 Definition vstate_eqb (a b : vstate) : bool :=
@@ -308,13 +314,15 @@ Definition call_model (k : dkind) (st : vstate) (c : call) : bool * vstate * boo
   else run_invocations k st (c_invs c).
 
 (** a whole history from the attributes of a new detector: position of the first call whose
-    outcome, attributes or returned shapes differ from the model's; [None] = all agree *)
+    outcome, attributes or recorded invocations differ from the model's; [None] = all agree *)
 Fixpoint history_mismatch (k : dkind) (st : vstate) (h : list call) (i : Z) : option Z :=
   match h with
   | [] => None
   | c :: t =>
-      let '(ok, s, shapes_ok) := call_model k st c in
-      if Bool.eqb ok (c_accepted c) && vstate_eqb s (mkV (c_cols c) (c_dim c)) && shapes_ok
+      let '(ok, s, seen_ok) := call_model k st c in
+      if Bool.eqb ok (c_accepted c)
+         && (negb (c_attrs_known c) || vstate_eqb s (mkV (c_cols c) (c_dim c)))
+         && seen_ok
       then history_mismatch k s t (i + 1)
       else Some i
   end.
